@@ -423,8 +423,9 @@ PROPS = {
             "C17_next_run_can_start": [],
             "C17_deterministic": [],
             "C17_stack_ops_agree": [],
-            "C17_step_after_clear_partial": [],
-            "C17_run_after_clear_partial": [],
+            "C17_step_after_clear": [],
+            "C17_run_after_clear": [],
+            "C17_sim_readable": [],
         },
         n_quick=90, n_thorough=900,
         gates=["step.clear", "step.no_clear", "history.300_steps", "outcome.ETimeout", "outcome.EStackoverflow",
@@ -467,11 +468,10 @@ PROPS = {
             "subject of C05 (Alloc.v), not of this model",
         ],
         assumptions=[
-            "PARTIAL: `run P (clear s) = run P fresh` (same outcome, final states equal up to dead stack slots above "
-            "the high-water mark) is proved for all programs through every ValueStack operation, every instruction "
-            "except CallNative / CallFunction-on-a-native, run_function, the dispatch loop, nested runs and run, under "
-            "the hypothesis natives_ok (entering a native function of the menu preserves the relation): that "
-            "hypothesis is not proved and is claimed by the fresh-Vm oracle on generated histories only",
+            "`run P (clear s) = run P fresh` is proved for the model (C17_run_after_clear: same outcome, final states "
+            "equal in everything readable, i.e. up to dead stack slots above the high-water mark of the run) for all "
+            "programs, budgets and natives of the menu; the allocator and the collector are not part of that model: "
+            "the accounted memory after clear is claimed by the counter / sweep oracles and by C05's allocator model",
             "histories under a small memory limit (runs ending in OutOfMemory, collections) are judged by the "
             "fresh-Vm oracle and the allocator-counter oracle only: the model has no allocator, code 1 is skipped "
             "for them; in the modelled histories the harness gives the VM a 1 GiB limit so that no collection runs",
